@@ -287,9 +287,9 @@ Proof.
   constructor; unfold fresh3, has_q, pc2_fact; cbn;
   [ exact K1
   | exact K2
-  | intros y b Hy Hb; apply in_others in Hy; apply filter_In; split; [apply K3; tauto | cbn; apply negb_true_iff; apply Z.eqb_neq; tauto]
-  | intros y b Hy Hb; apply in_others in Hy; eapply K4; eauto; tauto
-  | intros y b Hy Sy Hb; apply in_others in Hy; eapply K5; eauto; tauto
+  | intros y b Hy Hb; apply in_others in Hy; destruct Hy as [Hy1 Hy2]; apply filter_In; split; [apply K3; assumption | cbn; apply negb_true_iff; apply Z.eqb_neq; assumption]
+  | intros y b Hy Hb; apply in_others in Hy; destruct Hy as [Hy1 Hy2]; eapply K4; eauto
+  | intros y b Hy Sy Hb; apply in_others in Hy; destruct Hy as [Hy1 Hy2]; eapply K5; eauto
   | exact K6
   | exact K7
   | intros a lo hi Hi; apply filter_In in Hi; destruct Hi as [Hi M]; cbn in M; apply negb_true_iff in M; apply Z.eqb_neq in M; apply OTH; auto; eapply K8; eauto
@@ -352,4 +352,62 @@ Proof.
   - eapply inv2_EQFinish; eauto.
   - eapply inv2_EQIter; eauto.
   - eapply inv2_EQClose; eauto.
+Qed.
+
+Lemma inv2_init s : wf_init s = true -> Inv2 s.
+Proof.
+  unfold wf_init. intros H. rewrite !andb_true_iff in H.
+  destruct H as [[[[[[[[[W1 W2] W3] W4] W5] W6] W7] W8] W9] W10].
+  destruct (pc s) eqn:P; try discriminate.
+  apply negb_true_iff in W3.
+  destruct (queriers s) eqn:EQ; try discriminate.
+  destruct (iso s) eqn:EI; try discriminate.
+  destruct (ooo_reads s) eqn:ER; try discriminate.
+  destruct (pending s) eqn:EP; try discriminate.
+  destruct (to_close s) eqn:ET; try discriminate.
+  destruct (closing s) eqn:EC; try discriminate.
+  rewrite forallb_forall in W10.
+  constructor; unfold fresh3, has_q, pc2_fact; rewrite ?EQ, ?EI, ?ER, ?EP, ?ET, ?EC, ?P; auto;
+    try (intros; exfalso; cbn in *; tauto).
+  intros b Hb. repeat split; auto. specialize (W10 b Hb). apply negb_true_iff in W10. apply memZ_false in W10. auto.
+Qed.
+
+Lemma run_inv2 tr : forall s s' outs, Inv2 s -> run s tr = Some (s', outs) -> Inv2 s'.
+Proof.
+  induction tr as [|e tr IH]; intros s s' outs I H; cbn in H.
+  - inv H. auto.
+  - destruct (step s e) as [s1|] eqn:S1; try discriminate.
+    destruct (run s1 tr) as [[sf o1]|] eqn:R1; try discriminate. inv H.
+    exact (IH s1 s' o1 (step_inv2 _ _ _ I S1) R1).
+Qed.
+
+Theorem no_use_after_close : forall s0 tr s outs,
+  wf_init s0 = true -> run s0 tr = Some (s, outs) ->
+  failed s = false /\
+  (forall x b, In x (queriers s) -> In b (q_blocks x) -> ~ In (b_id b) (closed s)).
+Proof.
+  intros s0 tr s outs W R. pose proof (run_inv2 tr s0 s outs (inv2_init s0 W) R) as I.
+  split; [apply (k_failed _ I) | apply (k_open _ I)].
+Qed.
+
+Theorem progress : forall s0 tr s outs,
+  wf_init s0 = true -> run s0 tr = Some (s, outs) -> queriers s = [] ->
+  forall e, next_wait s = Some e -> step s e <> None.
+Proof.
+  intros s0 tr s outs W R Q e H. pose proof (run_inv2 tr s0 s outs (inv2_init s0 W) R) as I.
+  assert (ISO : iso s = []).
+  { destruct (iso s) as [|[[a lo] hi] l] eqn:E; auto. exfalso.
+    destruct (k_iso _ I a lo hi) as (x & Hx & _); [rewrite E; left; auto|]. rewrite Q in Hx. destruct Hx. }
+  assert (RD : ooo_reads s = []).
+  { destruct (ooo_reads s) as [|[a r] l] eqn:E; auto. exfalso.
+    destruct (k_rd _ I a r) as (x & Hx & _); [rewrite E; left; auto|]. rewrite Q in Hx. destruct Hx. }
+  assert (PD : pending s = []).
+  { destruct (pending s) as [|[a r] l] eqn:E; auto. exfalso.
+    destruct (k_pd _ I a r) as (x & Hx & _); [rewrite E; left; auto|]. rewrite Q in Hx. destruct Hx. }
+  unfold next_wait in H.
+  destruct (pc s) eqn:P; destruct (to_close s) eqn:TC; destruct (closing s) eqn:CL; cbn in H;
+    try discriminate;
+    try (destruct (0 <? L) eqn:GL; try discriminate);
+    inv H; cbn [step]; unfold all_done, guard;
+    rewrite ?P, ?TC, ?CL, ?Q, ?ISO, ?RD, ?PD; cbn; rewrite ?Z.eqb_refl, ?GL; cbn; try discriminate.
 Qed.
